@@ -159,7 +159,7 @@ var meNames = []string{"A", "B", "C", "D", "E"}
 var meEpoch = time.Unix(1000000, 0)
 
 func (h *meRun) say(f string, a ...interface{}) { h.log = append(h.log, fmt.Sprintf(f, a...)) }
-func (h *meRun) hit(r string)                     { h.hits[r]++ }
+func (h *meRun) hit(r string)                   { h.hits[r]++ }
 func (h *meRun) fail(rule, class, f string, a ...interface{}) {
 	if h.viol != nil {
 		return
